@@ -89,7 +89,19 @@ def collect(ctx, TAG, jobs, suite_desc, driver=None, sample=None, geoms=None, li
         if acc:
             suite["accesses_by_location"] = acc
         ctx.suites.append(suite)
-        for f in sc.group_failures(mine, 1)[:limit] + sc.group_failures(bad, 1)[:limit]:
+        # listed known findings first (one representative each, unshrunk: classify prints the KNOWN-FINDING line), so that
+        # they cannot crowd a different violation of the same property out of the `limit` representatives below
+        known_seen = set()
+        fresh = []
+        for f in mine:
+            k = vlib.match_known(ctx.pid, f.text)
+            if k is None:
+                fresh.append(f)
+            elif k.get("id") not in known_seen:
+                known_seen.add(k.get("id"))
+                oracle.append((f.text, sc.replay_lines(f, None, feats)))
+        suite["known_finding_hits"] = len(mine) - len(fresh)
+        for f in sc.group_failures(fresh, 1)[:limit] + sc.group_failures(bad, 1)[:limit]:
             shrunk = sc.shrink(ctx, rel, exe, f, budget=120) if f.scenario else None
             item = (f.text if not shrunk else shrunk[3].text, sc.replay_lines(f, shrunk, feats))
             (oracle if f.kind == "ORACLE" else corr).append(item)
